@@ -394,6 +394,11 @@ def _coll_oracle(interp, env, f, args, t, bb, path):
             return args[1] if rb >= ra else args[0]
         return TOP
 
+    # ---- a one-element slice over a place (`slice::from_mut(&mut x)`, `array::from_mut`): the element is held by reference
+    if dk in ("core::slice::from_mut", "core::slice::from_ref", "core::array::from_mut", "core::array::from_ref", "core::slice::raw::from_mut", "core::slice::raw::from_ref") and len(args) == 1 \
+            and isinstance(a0, (Ref, HRef)):
+        return Agg("slice", None, None, [a0])
+
     # ---- vectors
     if k in ("alloc::vec::Vec::new", "alloc::vec::Vec::with_capacity"):
         return new_vec(interp)
